@@ -150,6 +150,10 @@ class CallsDriver:
     def _on_cb(self, v, c):
         kind, sh, frm = decode_value(v, c)
         self.fired[c].append({'k': 'value', 'kind': kind, 'sh': sh, 'from': frm})
+        if getattr(self, 'disconnect_in_callback', None) == c:
+            # the caller's reaction to this result is to ask for the connection to be closed; the loss is reported later
+            self.disconnect_in_callback = None
+            self.conn.disconnect()
         if getattr(self, 'lose_in_callback', None) == c:
             # the caller's reaction to this result is to tear the connection down, and the transport reports the loss at once
             self.lose_in_callback = None
@@ -455,6 +459,36 @@ def run(tier, seed):
         if dif:
             chk.violation('a completion callback that closes the connection (loss reported synchronously): impl differs from model in %s' % (
                 ','.join(sorted(set(d[0] for d in dif)))), dict(kind='spec->code lose in callback', module='c08', cfg=k2,
+                                                                  diff=[(a, repr(b), repr(c)) for a, b, c in dif]))
+    # ... and a completion callback that asks for the connection to be closed while the reply of another call is already
+    # there, in the same read: that reply came first (the model's Return ; Return ; Lose)
+    for k2 in ({'dl': False, 'ret': 'nocheck', 'nr': False}, {'dl': True, 'ret': 'nocheck', 'nr': False}):
+        k1 = {'dl': False, 'ret': 'nocheck', 'nr': False}
+        acts = [('Issue', (1, core_freeze(k1))), ('Issue', (2, core_freeze(k2))), ('Return', (1, 'one')), ('Return', (2, 'one')),
+                ('Lose', ())]
+        try:
+            ids = walk(gb, acts)
+        except KeyError:
+            continue
+        drv = CallsDriver([1, 2])
+        try:
+            drv.do_Issue(1, k1)
+            drv.do_Issue(2, k2)
+            drv.disconnect_in_callback = 1
+            raws = []
+            for c in (1, 2):
+                sig, body = reply_payload(c, 'one')
+                raws.append(message.MethodReturnMessage(drv._reply_serial(c), body=body, signature=sig,
+                                                        destination=':1.7').rawMessage)
+            drv.conn.dataReceived(b''.join(raws))
+            drv.do_Lose()
+            dif = core.diff_states(gb.nodes[ids[-1]], drv.project())
+        except Exception:
+            dif = [('exception', 'none', core.traceback_str()[-300:])]
+        nsync += 1
+        if dif:
+            chk.violation('a completion callback that disconnects while another reply waits in the same read: impl differs from model in %s' % (
+                ','.join(sorted(set(d[0] for d in dif)))), dict(kind='spec->code disconnect in callback', module='c08', cfg=k2,
                                                                   diff=[(a, repr(b), repr(c)) for a, b, c in dif]))
     # ... and a disconnect callback that issues a further call on the dying connection: it fails with the loss like the
     # others (the model's Issue ; Issue ; Lose)
